@@ -7,7 +7,9 @@
  *          enum=[k:v,...]  what a fresh iterator yields, sorted
  *          size=N
  * phys   : size, the trie in pre-order, the exact yield order of a fresh iterator, the exact
- *          callback order, the session iterator (node pointers printed as paths from the root) */
+ *          callback order, the session iterator (node pointers printed as paths from the root)
+ * `new ... phys=quiet` (scale stream): between `observe`s the trie dump is replaced by `~<FNV-1a 64 of the dump
+ *          text>/<node count>`; the walkers still run on every operation, the full dump is printed on `observe` */
 #include "cc_tsttable.c"
 #include "common.h"
 
@@ -15,13 +17,14 @@ static CC_TSTTable *tt;
 static CC_TSTTableIter it;
 static int it_valid;
 static int sparse, full_now;   /* obs=sparse session: content only on `observe` */
+static int quiet;              /* phys=quiet session: checksum of the trie dump instead of the dump */
 
 /* ---- interned keys: entry->key points into this table, which lives until `reset` ---- */
 #define MAXKEYS 4096
 static char *keys[MAXKEYS]; static size_t nkeys;
 static void ids_reset(void);
 static void shim_reset(void) {
-    tt = NULL; it_valid = 0; ids_reset();
+    tt = NULL; it_valid = 0; quiet = 0; ids_reset();
     for (size_t i = 0; i < nkeys; i++) __real_free(keys[i]);
     nkeys = 0;
 }
@@ -44,7 +47,12 @@ static char *intern(const char *hex) {
 }
 static void o_key(const char *k) {
     if (!*k) { o("-"); return; }
-    for (const unsigned char *p = (const unsigned char *)k; *p; p++) o("%02x", *p);
+    size_t n = strlen(k);
+    if (olen + 2 * n + 2 >= sizeof obuf) { fprintf(stderr, "output line too long\n"); exit(3); }
+    for (const unsigned char *p = (const unsigned char *)k; *p; p++) {      /* no printf per byte: keys have hundreds */
+        obuf[olen++] = "0123456789abcdef"[*p >> 4]; obuf[olen++] = "0123456789abcdef"[*p & 15];
+    }
+    obuf[olen] = 0;
 }
 
 /* ---- comparators for cmp=u / cmp=r sessions (the default one is the library's) ---- */
@@ -145,15 +153,16 @@ static void o_id(void *p) {
 }
 
 /* ---- private state ---- */
-static size_t n_eow; static const char *walk_msg;
+static size_t n_eow, n_nodes; static const char *walk_msg; static int check_blocks;
 static void o_node(CC_TSTTableNode *n, CC_TSTTableNode *parent) {
     if (!n) { o("."); return; }
+    n_nodes++;
     if (n->parent != parent) walk_msg = "parent-pointer";
-    if (block_size(n) < sizeof(CC_TSTTableNode)) walk_msg = "node-block-too-small";
+    if (check_blocks && block_size(n) < sizeof(CC_TSTTableNode)) walk_msg = "node-block-too-small";
     o("(%02x#", (unsigned char)n->c); o_id(n); o("^"); o_id(n->parent); o(";");
     if (n->eow) {
         n_eow++;
-        if (block_size(n->data) < sizeof(CC_TSTTableEntry)) walk_msg = "entry-block-too-small";
+        if (check_blocks && block_size(n->data) < sizeof(CC_TSTTableEntry)) walk_msg = "entry-block-too-small";
         o_key(n->data->key); o("=%llu", VAL(n->data->value));
     } else {
         o("-");
@@ -179,9 +188,17 @@ static void o_path(void *p) {
 static void phys(void) {
     if (!tt) { o("-"); return; }
     o("size=%zu tree=", tt->size);
-    n_eow = 0; walk_msg = NULL;
+    n_eow = 0; n_nodes = 0; walk_msg = NULL;
+    check_blocks = !quiet || full_now;      /* the harness ledger is searched linearly: only on `observe` when quiet */
     ids_prepass();
+    size_t start = olen;
     o_node(tt->root, NULL);
+    if (quiet && !full_now) {
+        unsigned long long h = 0xcbf29ce484222325ull;
+        for (size_t i = start; i < olen; i++) { h ^= (unsigned char)obuf[i]; h *= 0x100000001b3ull; }
+        olen = start; obuf[olen] = 0;
+        o("~%016llx/%zu", h, n_nodes);
+    }
     if (n_eow != tt->size) walk_msg = "eow-count-differs-from-size";
     if (!sparse || full_now) { collect_iter(); o(" "); o_pairs("ord"); }   /* library iterator */
     if (cb_kind == 1) {
@@ -209,12 +226,14 @@ static void do_op(Cmd *c) {
         if (!strcmp(cm, "r")) conf.char_cmp = cmp_reverse;
         conf.mem_alloc = conf_malloc; conf.mem_calloc = conf_calloc; conf.mem_free = conf_free;
         tt = NULL; it_valid = 0; sparse = !strcmp(kv_str(c, "obs", "full"), "sparse"); ids_reset();
+        quiet = !strcmp(kv_str(c, "phys", "full"), "quiet");
         enum cc_stat st = cc_tsttable_new_conf(&conf, &tt);
         if (st != CC_OK) tt = NULL;
         o_stat(st); o(" ");
     } else if (is_op(c, "new_default")) {
         tt = NULL; it_valid = 0;   /* C-library allocator: reported in the libc columns */
         sparse = !strcmp(kv_str(c, "obs", "full"), "sparse"); ids_reset();
+        quiet = !strcmp(kv_str(c, "phys", "full"), "quiet");
         enum cc_stat st = cc_tsttable_new(&tt); if (st != CC_OK) tt = NULL; o_stat(st); o(" ");
     } else if (!tt) { o("st=- nosession"); o_sep(); o("-"); return;
     } else if (is_op(c, "add") && key) {
